@@ -125,7 +125,7 @@ func (e *Env) Capped()               { e.res.Capped = true }
 func (e *Env) Count(name string)      { e.res.Counters[name]++ }
 func (e *Env) Add(name string, n int) { e.res.Counters[name] += int64(n) }
 func (e *Env) Note(format string, a ...any) {
-	if len(e.res.Notes) < 50 {
+	if len(e.res.Notes) < 200 {
 		e.res.Notes = append(e.res.Notes, fmt.Sprintf(format, a...))
 	}
 }
